@@ -5,6 +5,7 @@ package route
 import (
 	"encoding/hex"
 	"encoding/json"
+	"errors"
 	"fmt"
 	"os"
 	"sort"
@@ -215,7 +216,7 @@ func c24Key(rng *verifkit.Rand, needID bool) (key, format string) {
 	case "configuration-22":
 		key = c24Chars(rng, 22)
 	default:
-		key = "secret-" + rng.Hex(rng.Range(2, 12))
+		key = "secret-" + rng.Hex(rng.Range(12, 24)) // long enough never to collide with another key of this run (the outage pass keeps the environment cache for an hour)
 	}
 	return key, format
 }
@@ -227,27 +228,37 @@ type c24Ev struct {
 }
 
 type c24Case struct {
-	Row       c24Row            `json:"-"`
-	RowName   string            `json:"row"`
+	Row       c24Row                 `json:"-"`
+	RowName   string                 `json:"row"`
 	Cfg       config.AccessKeyConfig `json:"access_keys"`
-	ClientKey string            `json:"client_key"`
-	KeyFormat string            `json:"client_key_format"`
-	KeyIDs    map[string]string `json:"key_ids"`
-	Header    string            `json:"key_header"`
-	Expect    c24Expect         `json:"documented"`
-	Events    []c24Ev           `json:"events"`
+	ClientKey string                 `json:"client_key"`
+	KeyFormat string                 `json:"client_key_format"`
+	KeyIDs    map[string]string      `json:"key_ids"`
+	Header    string                 `json:"key_header"`
+	Expect    c24Expect              `json:"documented"`
+	Events    []c24Ev                `json:"events"`
+	// Phase qualifies the signature: "" for the plain table, "after-auth-lookup-outage"
+	// for the request that follows a scripted /1/auth outage
+	Phase  string         `json:"phase,omitempty"`
+	Outage map[string]any `json:"auth_outage,omitempty"`
 }
 
 const c24PeerAddr = "http://peer-c24.verif.invalid:8081"
 
 // c24Prepare configures the bench for the row and returns the concrete case.
 func c24Prepare(b *E3Bench, row c24Row, rng *verifkit.Rand, variant int) *c24Case {
+	return c24PrepareKeys(b, row, rng, variant, false)
+}
+
+// c24PrepareKeys: lookupKeys makes every key one Refinery asks /1/auth about (no
+// classic formats).
+func c24PrepareKeys(b *E3Bench, row c24Row, rng *verifkit.Rand, variant int, lookupKeys bool) *c24Case {
 	c := &c24Case{Row: row, RowName: row.String(), KeyIDs: map[string]string{}}
-	sendKey, _ := c24Key(rng, false)
-	listedKey, listedFmt := c24Key(rng, false)
+	sendKey, _ := c24Key(rng, lookupKeys)
+	listedKey, listedFmt := c24Key(rng, lookupKeys)
 	otherListed, _ := c24Key(rng, false)
 	byIDKey, byIDFmt := c24Key(rng, true)
-	unlistedKey, unlistedFmt := c24Key(rng, false)
+	unlistedKey, unlistedFmt := c24Key(rng, lookupKeys)
 	idListed, idOther := "kid"+rng.Hex(6), "kid"+rng.Hex(6)
 	c.KeyIDs[byIDKey] = idListed
 	cfg := config.AccessKeyConfig{SendKeyMode: row.Mode, AcceptOnlyListedKeys: row.AOLK}
@@ -295,7 +306,12 @@ func c24Prepare(b *E3Bench, row c24Row, rng *verifkit.Rand, variant int) *c24Cas
 		}
 		return ""
 	})
-	// events: which kinds an endpoint can carry
+	c.Events = c24MakeEvents(row, rng, variant)
+	return c
+}
+
+// c24MakeEvents: which kinds an endpoint can carry, with fresh ids.
+func c24MakeEvents(row c24Row, rng *verifkit.Rand, variant int) []c24Ev {
 	kinds := []string{"event", "span-mine", "span-peer"}
 	switch {
 	case strings.HasPrefix(row.Endpoint, "otlp-traces"):
@@ -303,6 +319,7 @@ func c24Prepare(b *E3Bench, row c24Row, rng *verifkit.Rand, variant int) *c24Cas
 	case strings.HasPrefix(row.Endpoint, "event"):
 		kinds = []string{kinds[variant%3]}
 	}
+	var evs []c24Ev
 	for k, kind := range kinds {
 		e := c24Ev{ID: fmt.Sprintf("c24-%s-%d", rng.Hex(6), k), Kind: kind}
 		switch kind {
@@ -311,9 +328,9 @@ func c24Prepare(b *E3Bench, row c24Row, rng *verifkit.Rand, variant int) *c24Cas
 		case "span-peer":
 			e.tid = "ee" + rng.Hex(30)
 		}
-		c.Events = append(c.Events, e)
+		evs = append(evs, e)
 	}
-	return c
+	return evs
 }
 
 type c24Outcome struct {
@@ -451,6 +468,17 @@ func TestVerif_C24(t *testing.T) {
 	// answer chosen for an open documentation question, per question: first endpoint's observed choice
 	type choice struct{ answer, endpoint string }
 	ambiguous := map[string]choice{}
+	uniform := func(q, answer, endpoint string) string {
+		prev, ok := ambiguous[q]
+		if !ok {
+			ambiguous[q] = choice{answer, endpoint}
+			return ""
+		}
+		if prev.answer != answer {
+			return fmt.Sprintf("%s answered %q here but %q on %s", q, answer, prev.answer, prev.endpoint)
+		}
+		return ""
+	}
 
 	run.Cases("table", len(rows)*reps, func(i int, rng *verifkit.Rand) {
 		row := rows[i%len(rows)]
@@ -479,17 +507,7 @@ func TestVerif_C24(t *testing.T) {
 		} else {
 			run.Count("requests_refused", 1)
 		}
-		c24Judge(run, c, out, reqWit, all, effects, func(q, answer string) string {
-			prev, ok := ambiguous[q]
-			if !ok {
-				ambiguous[q] = choice{answer, row.Endpoint}
-				return ""
-			}
-			if prev.answer != answer {
-				return fmt.Sprintf("%s answered %q here but %q on %s", q, answer, prev.answer, prev.endpoint)
-			}
-			return ""
-		})
+		c24Judge(run, c, out, reqWit, all, effects, func(q, answer string) string { return uniform(q, answer, row.Endpoint) })
 		if i < 2 {
 			run.Sample(map[string]any{"case": c, "outcome": out.Status, "events_leaving": len(effects)})
 		}
@@ -558,6 +576,86 @@ func TestVerif_C24(t *testing.T) {
 		}
 		run.Nontrivial("wire/" + row.String())
 	})
+
+	// ---- outage pass: /1/auth fails, then recovers, within the environment-cache TTL ----
+	// Sub-table: configurations with ReceiveKeyIDs (every request looks the key up) x every
+	// non-blank key class x endpoint; all keys in formats that need a lookup. While the
+	// scripted /1/auth fails (timeout / 5xx / 401) one or two requests are sent: their
+	// answer is left open (the key ID is unknowable), except that nothing may leave with a
+	// blank key. Then /1/auth recovers and the same client sends again: this request is
+	// judged by the full table oracle. The cache TTL is an hour, i.e. the whole pass
+	// happens "within the TTL" whatever the wall clock does.
+	ob := e3New(t, E3Options{GRPC: true, EnvCacheTTL: time.Hour})
+	defer ob.Close()
+	var orows []c24Row
+	for _, r := range c24Table(c24Endpoints) {
+		if (r.Lists == "both" || r.Lists == "ids") && r.Class != "blank" {
+			orows = append(orows, r)
+		}
+	}
+	run.Count("outage_table_rows", int64(len(orows)))
+	oreps := run.N(1, 4)
+	run.Cases("auth-outage", len(orows)*oreps, func(i int, rng *verifkit.Rand) {
+		row := orows[i%len(orows)]
+		variant := i/len(orows) + int(run.Seed()%3)
+		c := c24PrepareKeys(ob, row, rng, variant, true)
+		c.Phase = "after-auth-lookup-outage"
+		fault := verifkit.Pick(rng,
+			"failed sending AuthInfo request to Honeycomb API. context deadline exceeded (Client.Timeout exceeded while awaiting headers)",
+			"failed sending AuthInfo request to Honeycomb API. dial tcp: connection refused",
+			"received 503 response for AuthInfo request from Honeycomb API",
+			"received 500 response for AuthInfo request from Honeycomb API",
+			"received 401 response for AuthInfo request from Honeycomb API - check your API key")
+		nOutage := rng.Range(1, 2)
+		c.Outage = map[string]any{"auth_answer_during_outage": fault, "requests_during_outage": nOutage}
+		ids, down := c.KeyIDs, true
+		ob.Env.Set(func(key string) (string, string, error) {
+			if down {
+				return "", "", errors.New(fault)
+			}
+			id, ok := ids[key]
+			if !ok {
+				id = "kid-unlisted-" + key[:min(4, len(key))]
+			}
+			return "env-" + key[:min(4, len(key))], id, nil
+		})
+		var during []string
+		for k := 0; k < nOutage; k++ {
+			c.Events = c24MakeEvents(row, rng, variant+k)
+			ob.Log.Reset()
+			out, reqWit := c24Send(t, ob, c, rng)
+			during = append(during, out.Status)
+			run.Count("requests_during_outage", 1)
+			if out.Accepted {
+				run.Count("requests_during_outage_accepted", 1)
+			}
+			for _, o := range ob.Log.Effects() {
+				if o.Ev.APIKey == "" {
+					run.Violation("C24/"+row.Endpoint+"/during-auth-lookup-outage/blank-key-left-refinery",
+						fmt.Sprintf("%s (%s) handed an event on with a blank API key while /1/auth was failing", row.Endpoint, out.Status),
+						map[string]any{"case": c, "request": reqWit, "outcome": out, "observations": ob.Log.Snapshot()})
+					break
+				}
+			}
+		}
+		c.Outage["answers_during_outage"] = during
+		down = false // /1/auth is back
+		c.Events = c24MakeEvents(row, rng, variant)
+		ob.Log.Reset()
+		out, reqWit := c24Send(t, ob, c, rng)
+		all := ob.Log.Snapshot()
+		var effects []E3Obs
+		for _, o := range all {
+			if o.Where != E3AtEnvLookup {
+				effects = append(effects, o)
+			}
+		}
+		run.Count("requests_after_recovery", 1)
+		if os.Getenv("VERIF_C24_TRACE") != "" {
+			t.Logf("OUTAGE %-80s during=%v after=%s leaving=%d", row, during, out.Status, len(effects))
+		}
+		c24Judge(run, c, out, reqWit, all, effects, func(q, answer string) string { return uniform(q, answer, row.Endpoint) })
+	})
 	var qs []string
 	for q, ch := range ambiguous {
 		qs = append(qs, q+" -> "+ch.answer)
@@ -571,7 +669,12 @@ func TestVerif_C24(t *testing.T) {
 // c24Judge applies the oracle to one executed row.
 func c24Judge(run *verifkit.Run, c *c24Case, out c24Outcome, reqWit map[string]any, all, effects []E3Obs, uniform func(question, answer string) string) {
 	row, exp := c.Row, c.Expect
-	sig := func(kind string) string { return "C24/" + row.Endpoint + "/" + kind }
+	sig := func(kind string) string {
+		if c.Phase != "" {
+			return "C24/" + row.Endpoint + "/" + c.Phase + "/" + kind
+		}
+		return "C24/" + row.Endpoint + "/" + kind
+	}
 	wit := func() map[string]any {
 		return map[string]any{"case": c, "request": reqWit, "outcome": out, "observations": all}
 	}
@@ -579,8 +682,8 @@ func c24Judge(run *verifkit.Run, c *c24Case, out c24Outcome, reqWit map[string]a
 		run.Violation(sig("panic-escaped-handler-chain"), "a panic escaped the handler chain: "+out.HTTP.Panicked, wit())
 		return
 	}
-	if exp.MustRefuse || len(exp.Out) != 1 || exp.Out[0] != c.ClientKey {
-		run.Nontrivial(row.String())
+	if exp.MustRefuse || len(exp.Out) != 1 || exp.Out[0] != c.ClientKey || c.Phase != "" {
+		run.Nontrivial(c.Phase + row.String())
 	}
 	// 1. no event ever leaves with a blank key
 	blankLeft := 0
